@@ -33,6 +33,8 @@ ANCHORS = ["QueryBuilder.get_sql", "Field.get_sql", "Star.get_sql", "Table.get_t
            "QueryBuilder._columns_sql", "QueryBuilder._set_sql", "QueryBuilder._on_conflict_action_sql", "JoinUsing.get_sql",
            "QueryBuilder._validate_table"]
 WORKERS = {"quick": 16, "thorough": 16}
+# cases the check sets aside instead of judging, as a share of all cases (more than that makes a run inconclusive)
+CEILING_RATIOS = {"unbuildable": 0.005, "render_raises": 0.005, "sqlite_other_errors": 0.05}
 
 SHAPES = ["plain", "aliased", "schema", "schema-aliased", "subquery", "setop", "cte"]
 CLAUSES = ["select", "where", "groupby", "having", "orderby", "function", "case"]
